@@ -18,10 +18,11 @@ pub fn prop() -> Prop {
             "the geometric clause is only asserted for non-degenerate shapes (both sides > 0), as stated",
         ],
         subs: vec![
-            Sub::tape("rectangle", 16, 100_000, 1_500_000, |d, cx| run(d, cx, 0)),
-            Sub::tape("circle", 16, 100_000, 1_500_000, |d, cx| run(d, cx, 1)),
-            Sub::tape("ellipse", 16, 100_000, 1_500_000, |d, cx| run(d, cx, 2)),
-            Sub::tape("rounded_rectangle", 28, 140_000, 2_100_000, |d, cx| run(d, cx, 3)),
+            Sub::tape("rectangle", 16, 100_000, 5_000_000, |d, cx| run(d, cx, 0)),
+            Sub::tape("circle", 16, 100_000, 5_000_000, |d, cx| run(d, cx, 1)),
+            Sub::tape("ellipse", 16, 100_000, 5_000_000, |d, cx| run(d, cx, 2)),
+            Sub::tape("rounded_rectangle", 28, 140_000, 7_000_000, |d, cx| run(d, cx, 3)),
+            Sub::tape("large", 28, 1_500, 75_000, |d, cx| { let k = d.u(0, 3); run(d, cx, k + 100) }),
         ],
     }
 }
@@ -111,8 +112,12 @@ macro_rules! check_closed {
 fn run(d: &mut Dec, cx: &mut Cx, kind: u32) -> Res {
     let big = d.ratio(1, 4);
     let dom = ShapeDom { r: 8, max: if big { 60 } else { 24 } };
-    let shape = gen::shape_of_kind(d, kind, dom);
-    let style = gen::style::<C>(d, 12);
+    // kinds >= 100: the same four shapes at 100..=400 px with strokes up to 60 (sub-check "large")
+    let (shape, style) = if kind >= 100 {
+        (gen::large_shape(d, kind - 100, 100, 400), gen::style::<C>(d, 60))
+    } else {
+        (gen::shape_of_kind(d, kind, dom), gen::style::<C>(d, 12))
+    };
     cx.describe(|| format!("{:?} {}", shape, gen::style_desc(&style)));
     cx.class(match style.stroke_alignment {
         StrokeAlignment::Inside => "inside",
